@@ -415,6 +415,10 @@ func (fc *FnCtx) doSelect(x *ssa.Select) {
 		if s.Dir == types.SendOnly {
 			// a send: invariant obligation under the case being chosen
 			inv, class := fc.chanInvFor(s.Chan)
+			// a send case of a select is an anchor like a send statement (the assertion holds if the case is taken)
+			fc.anchorArgs = []Val{fc.operand(s.Chan), fc.operand(s.Send)}
+			fc.anchorBefore("send "+class, s.Pos)
+			fc.anchorAfter("send "+class, s.Pos)
 			if fc.chanNoDrop(class) && len(x.States) > 1 {
 				fc.obligeAt(fc.cur, "chan-nodrop", class, "false", x.Pos(), "a message for channel "+class+" may be dropped: the send is one of several select cases")
 			}
